@@ -97,6 +97,7 @@ type Explorer struct {
 	decisions   int64
 	steps       int64
 	unknownBr   int64
+	truncated   int64
 	sites       map[string]*siteStat
 	reach       map[string]int64
 	reachSample map[string][]NondetVal
